@@ -252,6 +252,8 @@ def predicate_table(F, kbody):
                 lp = v
             if re.search(r"event::StepError\)$", a) and a.startswith("discr("):
                 nf = (o == "NotFound")
+            elif re.search(r"std::option::Option\)$", a) and a.startswith("discr(") and o == "None" and nf is None:
+                nf = "absent"       # an optional error that is not there (a hook failure handled by a shared helper): it is not NotFound
         rows.append((lp, nf, p.ret))
     return rows
 
@@ -265,7 +267,7 @@ def is_canonical_retry_predicate(rows):
             return False
         if lp is None:
             return False
-        expect = lp and (nf is False)
+        expect = lp and (nf is False or nf == "absent")
         if lp and nf is None:
             return False
         if ret != expect:
